@@ -237,6 +237,16 @@ theorem fee_fields_eq (fee : Nat) (h : fee < 65536) : layer_from_feeid fee = fee
   simp only [layer_from_feeid, stave_number_from_feeid, feeLayer, feeStave, Rs.and_mask, shr]
   omega
 
+
+/-- **which validator a command line gets**: `RdhCruSanityValidator::new_from_config` builds the state `mkValidator hid sys` with
+    `hid` = the configured `rdh_version` when custom checks are enabled (otherwise learnt from the first header) and
+    `sys` = the ITS system id exactly when a target system (`its`, `its-stave`) is given — in every combination of the two -/
+theorem new_from_config_eq (cfg : CfgAbs) :
+    RdhCruSanityValidator.new_from_config cfg =
+      mkValidator (if cfg.customEnabled then cfg.rdhVersion else none) (if cfg.target.isSome then some 32 else none) := by
+  obtain ⟨en, tg, rv⟩ := cfg
+  cases en <;> cases rv <;> (cases tg with | none => rfl | some t => cases t <;> rfl)
+
 /-! ### `RdhCruRunningChecker` (rdh_running.rs) = `runningStep` -/
 
 /-- abstraction: the source's running-checker state as the model's `RunSt` -/
